@@ -1032,4 +1032,10 @@ pub fn mulmod""", expect=r'semantics:ADDMOD:(add512|no-other)'),
  dict(id='R-C17-gt-respelled-mstore8-cast', pid='C17', file='actors/evm/src/interpreter/instructions/boolean.rs', old="""    U256::from_u64((a > b).into())""", new="""    let greater = b < a;
     U256::from_u64(greater.into())""", expect=None,
       extra=('actors/evm/src/interpreter/instructions/memory.rs', """    let value = (value.low_u32() & 0xff) as u8;""", """    let value = value.low_u32() as u8;""")),
+
+ # ---------------- K12 running totals (generic accumulator integrity; no property-specific row names these sites)
+ dict(id='K12-precommit-deposit-last-wins', pid=['C03', 'C01'], file='actors/miner/src/lib.rs', old="""                total_deposit_required += &deposit_req;""", new="""                total_deposit_required = deposit_req.clone();""", expect=r'running-totals:.*total_deposit_required'),
+ dict(id='K12-claimed-space-last-wins', pid=['C09', 'C10'], file='actors/verifreg/src/lib.rs', old="""                    sector_claimed_space += DataCap::from(new_claim.size.0);""", new="""                    sector_claimed_space = DataCap::from(new_claim.size.0);""", expect=r'running-totals:.*sector_claimed_space'),
+ dict(id='K12-declared-fault-power-last-wins', pid=['C02', 'C04'], file='actors/miner/src/lib.rs', old="""                new_fault_power_total += &deadline_power_delta;""", new="""                new_fault_power_total = deadline_power_delta.clone();""", expect=r'running-totals:.*new_fault_power_total'),
+ dict(id='K12-expired-pledge-last-wins', pid=['C04', 'C03'], file='actors/miner/src/deadline_state.rs', old="""            all_on_time_pledge += &partition_expiration.on_time_pledge;""", new="""            all_on_time_pledge = partition_expiration.on_time_pledge.clone();""", expect=r'running-totals:.*all_on_time_pledge|prov'),
 ]
